@@ -230,3 +230,33 @@ def function_text(src, name):
 
 def functions_text(src, names):
     return "\n\n".join("    " + function_text(src, n) for n in names)
+
+
+def fn_names(src):
+    """Names of the functions defined at any depth in src, in order of appearance."""
+    return [m.group(1) for m in re.finditer(r"\bfn\s+([A-Za-z_][A-Za-z0-9_]*)\b", src)]
+
+
+def closure(src, roots, exclude=()):
+    """The root functions plus every function defined in src that they call (directly or through others): a private helper a
+    refactoring introduces is sliced along with its caller.  Calls are recognised textually (`name(`, `self.name(`, `Self::name(`)."""
+    defined = []
+    for n in fn_names(src):
+        if n not in defined:
+            defined.append(n)
+    wanted, todo = [], [r for r in roots]
+    while todo:
+        n = todo.pop(0)
+        if n in wanted or n in exclude:
+            continue
+        if n not in defined:
+            if n in roots:
+                raise SliceError("fn %s not found" % n)
+            continue
+        wanted.append(n)
+        _, body = function(src, n)
+        for m in re.finditer(r"\b([A-Za-z_][A-Za-z0-9_]*)\s*(?:::<[^>]*>)?\s*\(", body):
+            c = m.group(1)
+            if c in defined and c not in wanted and c not in todo:
+                todo.append(c)
+    return [n for n in defined if n in wanted]
